@@ -212,6 +212,73 @@ def run(replay=None):
                 stats["grid_equal"] += 1
             elif mf:
                 corr_bad.append((p.text(), detail, m))
+    # ---- adaptive quadtrees: collectChildren (collapse) + the recursive dual walk against Render/QuadTree.v ----
+    import re as _re
+    ok_q, log_q = common.build_driver(**common.DRIVERS["qtdriver"])
+    qprogs = []
+    for k in range(60 if quick else 1500):
+        p = shape2d(rng, f"q{k}")
+        p.q = p.ncmd + 1
+        # max_err: the default 1e-8 rarely collapses anything; larger values collapse whatever the topology tests allow
+        me = rng.choice([1e-8, 1e-3, 1e-2, 0.05, 0.2, 1.0, 1e9])
+        p.emit(f"quadtree {p.root} {rng.choice([3, 4, 4, 5, 5, 6])} " + " ".join(f2h(v) for v in (-1.6, -1.6, 1.6, 1.6)) +
+               f" {f2h(p.slice)} {f2h(me)}")
+        qprogs.append(p)
+    qout, qskip = common.run_cases_sharded(exe_h, [p.text() for p in qprogs], shards=8, timeout=900, single_timeout=300)
+    Q = parse_out(qout)
+    qcases, qmeta = [], []
+    for p in qprogs:
+        l = [x for x in Q.get((p.cid, p.q), []) if x.startswith("QT ")]
+        if not l:
+            continue
+        m = _re.search(r"level=(\d+) pre=(.*) post=(.*) segs=(.*)", l[0])
+        if not m or " U" in l[0]:
+            ck.violation("quadtree:dump", "the quadtree dump is malformed (an ambiguous cell without a leaf?)",
+                         {"program": p.text(), "detail": l[0][:500]})
+            continue
+        segs = [tuple(int(v) for v in sg.split(">")) for sg in m.group(4).split()]
+        qcases.append(f"case {p.cid}\nquadtree {m.group(1)} pre {m.group(2).strip()} post {m.group(3).strip()} segs {m.group(4).strip()}\nend\n")
+        qmeta.append((p, segs, l[0]))
+    stats.update(quadtrees=len(qcases), quadtree_collect_equal=0, quadtree_walk_equal=0, quadtree_hyp_hold=0,
+                 quadtree_collapsed_leaves=0, quadtree_mixed_level_segments=0, quadtree_hyp_failed=0, quadtree_segments=0)
+    if ok_q and qcases:
+        mq, _ = common.run_cases_sharded(os.path.join(common.BUILD, "ocaml", "qtdriver"), qcases, timeout=1800, single_timeout=600)
+        MQ = parse_out(mq)
+        for p, segs, detail in qmeta:
+            m = (MQ.get((p.cid, 1)) or [""])[0]
+            if not m.startswith("QM "):
+                corr_bad.append((p.text(), detail[:300], m))
+                continue
+            f = dict(x.split("=", 1) for x in m.split()[1:])
+            # the property itself on exactly this tree: every vertex entered as often as left, at most once
+            deg_out, deg_in = {}, {}
+            for a, b in segs:
+                deg_out[a] = deg_out.get(a, 0) + 1; deg_in[b] = deg_in.get(b, 0) + 1
+            balanced = all(deg_out.get(v, 0) == deg_in.get(v, 0) == 1 for v in set(deg_out) | set(deg_in))
+            hyp = f["cons_pre"] == "true" and f["cons_post"] == "true" and f["bclear"] == "true" and f["conflicts"] == "0"
+            stats["quadtree_segments"] += len(segs)
+            stats["quadtree_collapsed_leaves"] += int(f["collapsed"])
+            stats["quadtree_mixed_level_segments"] += int(f["mixed"])
+            if hyp:
+                stats["quadtree_hyp_hold"] += 1
+            else:
+                stats["quadtree_hyp_failed"] += 1
+            if f["bclear"] == "true" and not balanced:
+                ck.violation("open:adaptive", "the dual walk over a quadtree with cells of different levels leaves a contour vertex "
+                             "with unequal in / out degree (an open or branching contour)",
+                             {"program": p.text(), "command": p.lines[p.q - 1], "detail": detail[:2000], "model": m})
+            if f["collect_equal"] == "true":
+                stats["quadtree_collect_equal"] += 1
+            else:
+                corr_bad.append((p.text(), "collectChildren: " + detail[:1500], m))
+            if f["walk_equal"] == "true":
+                stats["quadtree_walk_equal"] += 1
+            else:
+                corr_bad.append((p.text(), "Dual<2>::walk / DCContourer::load: " + detail[:1500], m))
+            if hyp and f["bclear"] == "true" and not balanced:
+                pass    # reported above; with the hypotheses holding this would contradict C10_adaptive_walk_balanced
+    if not ok_q:
+        ck.violation("driver", "extracted quadtree model does not build", {"log": log_q[-3000:]}, no_input=True)
     if not ok_g:
         ck.violation("driver", "extracted grid model does not build", {"log": log_g[-3000:]}, no_input=True)
     if corr_bad:
@@ -226,7 +293,8 @@ def run(replay=None):
     stats["corr_mismatch"] = len(corr_bad)
     ck.coverage.update(stats)
     ck.coverage["evaluations"] = stats["soups"] + stats["renders"]
-    ck.coverage["traces_validated_against_impl"] = stats["soups_equal"] + stats.get("grid_equal", 0)
+    ck.coverage["traces_validated_against_impl"] = (stats["soups_equal"] + stats.get("grid_equal", 0) +
+                                                     stats.get("quadtree_walk_equal", 0) + stats.get("quadtree_collect_equal", 0))
     ck.coverage["samples"] = samples
     ck.coverage["rule"] = ("soups: 1..5 directed cycles of 1..40 vertices in shuffled order (75%), with open paths (15%) or with extra "
                            "branching segments (10%); renders: rotated circles / rectangles / CSG in 2D and slices of 3D solids, "
